@@ -26,7 +26,47 @@ Section G.
     intros Hz Hv. rewrite r_multi_verify in Hv. injection Hv as Hv.
     exact (C07_zero_sum_key_rejected K laws O C m sks msg Hz Hv).
   Qed.
+  (* C07: the translated accumulation is the plain sum; short, Aug and mixed lists are refused *)
+  Theorem generated_multi_accumulation_is_sum (s0 s1 : tagged) (rest : list tagged) :
+    all_scheme K (tg_scheme s0) (s1 :: rest) -> tg_scheme s0 <> Aug ->
+    exists p, gen_MultiSignature_try_from E (s0 :: s1 :: rest) = Val (Ok (mktagged (tg_scheme s0) p))
+              /\ dl p = dl (psum (map (@tg_pt K) (s0 :: s1 :: rest))).
+  Proof.
+    intros H Ha. destruct (C07_accumulation_is_sum K laws s0 s1 rest H Ha) as (p & Hp & Hd).
+    exists p. rewrite r_multi_try_from, Hp. split; [reflexivity | exact Hd].
+  Qed.
+
+  Theorem generated_multi_fewer_than_two (l : list (@tagged K)) :
+    (length l < 2)%nat -> gen_MultiSignature_try_from E l = Val (Err InvalidSignature).
+  Proof. intros H. rewrite r_multi_try_from, (C07_fewer_than_two_refused K l H). reflexivity. Qed.
+
+  Theorem generated_multi_aug_and_mixed_refused (s0 s1 : tagged) (rest : list tagged) :
+    ~ all_scheme K (tg_scheme s0) (s1 :: rest) \/ tg_scheme s0 = Aug ->
+    gen_MultiSignature_try_from E (s0 :: s1 :: rest) = Val (Err InvalidSignatureScheme).
+  Proof. intros H. rewrite r_multi_try_from, (C07_aug_and_mixed_refused K s0 s1 rest H). reflexivity. Qed.
+
+  Theorem generated_multi_key_is_sum (keys : list (pt K Gpk)) :
+    exists mpk, gen_MultiPublicKey_from_public_keys E keys = Val mpk /\ dl mpk = dl (psum keys).
+  Proof.
+    exists (multi_pk_from_public_keys keys). rewrite r_multi_pk_from_public_keys.
+    split; [reflexivity | apply (C07_accumulated_key_is_sum K laws keys)].
+  Qed.
+
+  (* C07: a multi-signature accepted by the translated verifier is accepted for that accumulated key only *)
+  Theorem generated_multi_exactly_the_signer_set (s : scheme) (p : pt K Gsig) (mpk mpk' : pt K Gpk) (msg : bytes) :
+    s <> Aug -> eta O msg (dst_of C s) <> f0 K ->
+    gen_MultiSignature_verify E (mktagged s p) mpk msg = Val (Ok tt) ->
+    gen_MultiSignature_verify E (mktagged s p) mpk' msg = Val (Ok tt) -> mpk' = mpk.
+  Proof.
+    intros Hs Hh. rewrite !r_multi_verify. intros H1 H2. injection H1 as H1. injection H2 as H2.
+    exact (C07_exactly_the_signer_set K laws O C s p mpk mpk' msg Hs Hh H1 H2).
+  Qed.
 End G.
 
 Print Assumptions generated_multi_signature_verifies.
 Print Assumptions generated_multi_zero_sum_rejected.
+Print Assumptions generated_multi_accumulation_is_sum.
+Print Assumptions generated_multi_fewer_than_two.
+Print Assumptions generated_multi_aug_and_mixed_refused.
+Print Assumptions generated_multi_key_is_sum.
+Print Assumptions generated_multi_exactly_the_signer_set.
